@@ -34,12 +34,27 @@ type hOp struct {
 	TTL    uint32   `json:"ttl,omitempty"`
 	TTLRel string   `json:"ttl_class,omitempty"` // abs-past / abs-future are computed from the clock at run time
 	Lose   []string `json:"lose,omitempty"`      // which backend entries of Key to drop first: "meta", "0", "1", ...
+	Put    []rawPut `json:"put,omitempty"`       // backend entries written directly before the call (requests of other writers)
+}
+
+// rawPut is one backend set request of some writer, applied directly to the fake backend
+type rawPut struct {
+	Key   string `json:"key"`
+	Value []byte `json:"value"`
+	Flags uint32 `json:"flags"`
 }
 
 type hCase struct {
+	Written []rawWrite `json:"written,omitempty"` // complete writes whose requests are injected via Put
 	Keys  []string `json:"keys"`  // client keys (as strings; may contain any byte)
 	Spare []int    `json:"spare"` // spare capacity of the key slice handed to the handler
 	Ops   []hOp    `json:"ops"`
+}
+
+type rawWrite struct {
+	Key   string `json:"key"`
+	Data  []byte `json:"data"`
+	Flags uint32 `json:"flags"`
 }
 
 func genBytes(seed uint64, n int) []byte {
@@ -138,6 +153,12 @@ func runChunkedCase(c hCase, w *rig.Writer) (coq string, ok bool, fail *rig.GoFa
 			fk.Evict(bk)
 			lost = append(lost, gal.Bytes([]byte(bk)))
 			bkeySet[bk] = true
+		}
+		var puts []string
+		for _, pt := range op.Put {
+			fk.Put(pt.Key, fakemc.Entry{Flags: pt.Flags, Value: pt.Value, Deadline: -1})
+			bkeySet[pt.Key] = true
+			puts = append(puts, gal.Pair(gal.Bytes([]byte(pt.Key)), gal.App("mkE", gal.Bytes(pt.Value), gal.N(uint64(pt.Flags)), "Never")))
 		}
 		fk.TakeLog()
 		var resG string
@@ -256,7 +277,7 @@ func runChunkedCase(c hCase, w *rig.Writer) (coq string, ok bool, fail *rig.GoFa
 		}
 		w.Count("op=" + op.Kind)
 		steps = append(steps, gal.App("mkS4", hreqGallina(op, keys, data, ttl), gal.Bytes(tok), gal.N(uint64(cnow)), gal.N(uint64(now)),
-			gal.List(lost), resG, stack.DumpGallina(fk), gal.List(lg)))
+			gal.List(lost), gal.List(puts), resG, stack.DumpGallina(fk), gal.List(lg)))
 	}
 	var bks []string
 	for k := range bkeySet {
@@ -276,7 +297,11 @@ func runChunkedCase(c hCase, w *rig.Writer) (coq string, ok bool, fail *rig.GoFa
 	for i, k := range keys {
 		cg[i] = gal.Bytes(k)
 	}
-	return gal.App("mkC4", gal.List(bg), gal.List(cg), gal.List(steps)), true, nil, stats
+	var wr []string
+	for _, x := range c.Written {
+		wr = append(wr, gal.Tuple(gal.Bytes([]byte(x.Key)), gal.Bytes(x.Data), gal.N(uint64(x.Flags))))
+	}
+	return gal.App("mkC4", gal.List(bg), gal.List(cg), gal.List(wr), gal.List(steps)), true, nil, stats
 }
 
 func truncH(c hCase, n int) hCase {
@@ -462,6 +487,82 @@ func lossCases(maxN int) []hCase {
 	return out
 }
 
+// captureSet runs one Set through the real handler against a scratch backend and returns the
+// backend requests it made (metadata first, then the chunks), as raw puts.
+func captureSet(key string, data []byte, flags uint32) []rawPut {
+	fk := fakemc.New()
+	fk.RealClock = func() int64 { return time.Now().Unix() }
+	h := chunked.NewHandler(fk.Pipe())
+	defer h.Close()
+	if err := h.Set(common.SetRequest{Key: []byte(key), Data: data, Flags: flags}); err != nil {
+		rig.Die("captureSet: %v", err)
+	}
+	d := fk.Dump()
+	var out []rawPut
+	for _, q := range fk.TakeLog() {
+		if q.Op == fakemc.OpSet {
+			out = append(out, rawPut{Key: q.Key, Value: d[q.Key].Value, Flags: q.Flags})
+		}
+	}
+	return out
+}
+
+// interleavings of two request sequences (order-preserving merges), as strings over {A,B}
+func merges(a, b int) []string {
+	if a == 0 && b == 0 {
+		return []string{""}
+	}
+	var out []string
+	if a > 0 {
+		for _, m := range merges(a-1, b) {
+			out = append(out, "A"+m)
+		}
+	}
+	if b > 0 {
+		for _, m := range merges(a, b-1) {
+			out = append(out, "B"+m)
+		}
+	}
+	return out
+}
+
+// interleavingCases: two complete sets A and B of the same key (n chunks each, different
+// lengths inside the same chunk count, different flags), their backend requests merged in every
+// order; after every prefix of every merge a get and a gat through the real handler (C05)
+func interleavingCases(maxN int) []hCase {
+	var out []hCase
+	ds := 1184 - 71 - 3 - 16
+	for n := 1; n <= maxN; n++ {
+		la, lb := (n-1)*ds+9, (n-1)*ds+200
+		if n >= 2 {
+			lb = (n-2)*ds + 30 // B has one chunk less: stale chunk of A beyond B's last
+		}
+		da, db := genBytes(uint64(100+n), la), genBytes(uint64(200+n), lb)
+		pa, pb := captureSet("key", da, 0xAAAA), captureSet("key", db, 0xBBBB)
+		wr := []rawWrite{{"key", da, 0xAAAA}, {"key", db, 0xBBBB}}
+		for _, m := range merges(len(pa), len(pb)) {
+			for _, rd := range []string{"get", "gat"} {
+				c := hCase{Keys: []string{"key"}, Spare: []int{0}, Written: wr}
+				ia, ib := 0, 0
+				for _, ch := range m {
+					var pt rawPut
+					if ch == 'A' {
+						pt = pa[ia]
+						ia++
+					} else {
+						pt = pb[ib]
+						ib++
+					}
+					// a read after every single request
+					c.Ops = append(c.Ops, hOp{Kind: rd, Key: 0, Keys: []int{0}, Put: []rawPut{pt}, TTL: 0})
+				}
+				out = append(out, c)
+			}
+		}
+	}
+	return out
+}
+
 func chunkedSeq(e *env, prop string, mode int) {
 	w := rig.NewWriter(e.out, prop, e.tier, e.seed)
 	w.Shards = 16
@@ -481,6 +582,11 @@ func chunkedSeq(e *env, prop string, mode int) {
 			maxN = 6
 		}
 		cases = lossCases(maxN)
+		im := 2
+		if thorough {
+			im = 3
+		}
+		cases = append(cases, interleavingCases(im)...)
 		w.Res.Exhaustive = true
 	} else {
 		// corpus: directed cases kept from earlier findings run first
@@ -540,7 +646,7 @@ func chunkedSeq(e *env, prop string, mode int) {
 		}
 		w.Add(rig.Case{Desc: c, Coq: coq, Nontrivial: nt, Tags: tags})
 	}
-	w.Res.Rule = "chunked handler over a fake backend: random operation sequences over 3 client keys (lengths 1..250, with and without spare slice capacity, keys resembling each other's backend keys), value lengths 0/1/k*payload±1/100/999 chunks; non-trivial = some value spans >= 2 chunks; C05: every subset of {meta, chunk i} of an n-chunk value removed before a get and a gat, with stale chunks of an older longer value present (exhaustive in n)"
+	w.Res.Rule = "chunked handler over a fake backend: random operation sequences over 3 client keys (lengths 1..250, with and without spare slice capacity, keys resembling each other's backend keys), value lengths 0/1/k*payload±1/100/999 chunks; non-trivial = some value spans >= 2 chunks; C05: every subset of {meta, chunk i} of an n-chunk value removed before a get and a gat, with stale chunks of an older longer value present (exhaustive in n); and the backend requests of two complete sets of one key merged in every order, with a get (resp. gat) after every single request (exhaustive for n <= 2 chunks quick, <= 3 thorough)"
 	if err := w.Finish([]string{"base.Bytes", "base.Harness", "gen.Consts_gen", "spec.MapSpec", "orca.Types", "handlers.Chunked", "checks.Check04"}, "case04",
 		fmt.Sprintf("check04 %d", mode)); err != nil {
 		rig.Die("%v", err)
